@@ -167,7 +167,7 @@ pub fn run_history(case: &HistCase, st: &mut Stats, known_open: &dyn Fn(&str) ->
 /// specification API with arbitrary arguments
 fn spec_calls(ctx: &Ctx) {
     let si = SpecIndex::get();
-    let cases = ctx.tier.pick(60_000u64, 3_000_000u64);
+    let cases = ctx.tier.pick(300_000u64, 3_000_000u64);
     let strat = (any::<u32>(), proptest::collection::vec(0usize..40, 0..6), proptest::collection::vec(0usize..40, 0..6), any::<u32>(), any::<u32>());
     run_prop(ctx, "spec-calls", cases, strat, |(tsel, idx1, idx2, nsel, vmask), st| {
         st.eval();
@@ -212,7 +212,7 @@ fn spec_calls(ctx: &Ctx) {
 }
 
 fn chardata_calls(ctx: &Ctx) {
-    let cases = ctx.tier.pick(40_000u64, 1_000_000u64);
+    let cases = ctx.tier.pick(200_000u64, 2_000_000u64);
     run_prop(ctx, "chardata-calls", cases, (".{0,24}", any::<u64>(), any::<f64>()), |(s, u, f), st| {
         st.eval();
         st.nontrivial(fnv(s.as_bytes()));
@@ -297,7 +297,7 @@ pub fn run(ctx: &Ctx) {
     );
     ctx.assume("the audit monitor only intercepts lock requests; with it installed the real parking_lot locks are still taken after the logical grant");
     let known_open = |sig: &str| ctx.is_known_open(sig);
-    let cases = ctx.tier.pick(5_000u64, 250_000u64);
+    let cases = ctx.tier.pick(30_000u64, 400_000u64);
     // aliasing-heavy weights: moves, removes, copies, set_ref
     let mut weights = default_weights();
     for x in weights.iter_mut() {
